@@ -241,27 +241,38 @@ def sod_replay(chk, scalar):
         return dict(res)
 
     def _replay(ob, model):
-        # the bisection result must be a root of func to working precision: compare p_m with a 50-digit root (Gamma=1.4)
+        # (1) defaults: the bisection result must be a root of func to working precision (Gamma=1.4);
+        # (2) history: Gamma := 5/3, evaluate once (mu still stale), then mu := (Gamma-1)/(Gamma+1) = 1/4, evaluate: the value must be the
+        #     exact solution for the CURRENT parameters (a cached root keyed on a subset of the parameters shows here)
         import replay as rp
         mp = rp.mp
         cxx = rp.SCALAR_CXX[scalar]
-        g = mp.mpf('1.4')
-        mu2 = (g - 1) / (g + 1)
-        pl, pr, rl, rr = mp.mpf(1), mp.mpf('0.125'), mp.mpf(1), mp.mpf('0.125')
-        cl, cr = mp.sqrt(g * pl / rl), mp.sqrt(g * pr / rr)
-        f = lambda p: -2 * cl * (1 - (p / pl) ** ((g - 1) / (2 * g))) / (cr * (g - 1)) + (p / pr - 1) * mp.sqrt((1 - mu2) / (g * (mu2 + p / pr)))
-        pm = mp.findroot(f, mp.mpf('0.3'))
-        rhoml = (rl * pm / pl) ** (1 / g)
-        # density in the contact region (between tail of the fan and the contact): x/t slightly negative
+
+        def exact(g):
+            mu2 = (g - 1) / (g + 1)
+            pl, pr, rl, rr = mp.mpf(1), mp.mpf('0.125'), mp.mpf(1), mp.mpf('0.125')
+            cl, cr = mp.sqrt(g * pl / rl), mp.sqrt(g * pr / rr)
+            f = lambda p: -2 * cl * (1 - (p / pl) ** ((g - 1) / (2 * g))) / (cr * (g - 1)) + (p / pr - 1) * mp.sqrt((1 - mu2) / (g * (mu2 + p / pr)))
+            pm = mp.findroot(f, mp.mpf('0.3'))
+            return (rl * pm / pl) ** (1 / g), pm
+        r14, pm14 = exact(mp.mpf('1.4'))
+        r53, pm53 = exact(mp.mpf(5) / 3)
         src = ('#include <masa.h>\n#include <cstdio>\nusing namespace MASA;\ntypedef %s Scalar;\nint main(){ masa_init<Scalar>("h","sod_1d");\n'
-               ' printf("\\nR rho %%.25Lg\\n",(long double)masa_eval_source_rho<Scalar>((Scalar)0.0,(Scalar)1.0)); return 0;}\n') % cxx
+               ' printf("\\nR rho %%.25Lg\\n",(long double)masa_eval_source_rho<Scalar>((Scalar)0.0,(Scalar)1.0));\n'
+               ' masa_init<Scalar>("g","sod_1d"); masa_set_param<Scalar>("Gamma",(Scalar)5/(Scalar)3); { volatile Scalar w_ = masa_eval_source_rho<Scalar>((Scalar)0.0,(Scalar)1.0); (void)w_; }\n'
+               ' masa_set_param<Scalar>("mu",(Scalar)0.25); printf("R rho53 %%.25Lg\\n",(long double)masa_eval_source_rho<Scalar>((Scalar)0.0,(Scalar)1.0)); return 0;}\n') % cxx
         rc, out, err = chk.lib().run(src)
-        got = rp.parse_results(out).get('rho')
-        if got is None or abs(got - rhoml) > mp.mpf('1e-9'):
-            path = chk.save_replay(ob, dict(obligation=ob.name, library=str(got), reference=str(rhoml), p_m=str(pm), stdout=out[-500:]), src)
+        res = rp.parse_results(out)
+        got, got53 = res.get('rho'), res.get('rho53')
+        if got is None or abs(got - r14) > mp.mpf('1e-9'):
+            path = chk.save_replay(ob, dict(obligation=ob.name, library=str(got), reference=str(r14), p_m=str(pm14), stdout=out[-500:]), src)
             return dict(reproduced=True, path=path, detail='sod_1d<%s>: density between fan and contact at (x=0,t=1) is %s, exact %s (p_m=%s): the bisection stopped before converging' % (
-                scalar, mp.nstr(got, 15) if got is not None else None, mp.nstr(rhoml, 15), mp.nstr(pm, 12)))
-        return dict(reproduced=False, path=None, detail='real library returns the converged state')
+                scalar, mp.nstr(got, 15) if got is not None else None, mp.nstr(r14, 15), mp.nstr(pm14, 12)))
+        if got53 is None or abs(got53 - r53) > mp.mpf('1e-9'):
+            path = chk.save_replay(ob, dict(obligation=ob.name, library=str(got53), reference=str(r53), scenario='Gamma:=5/3; evaluate; mu:=1/4; evaluate', stdout=out[-500:]), src)
+            return dict(reproduced=True, path=path, detail='sod_1d<%s>: after Gamma:=5/3, one evaluation, mu:=1/4 the density at (0,1) is %s, exact solution for the current parameters %s' % (
+                scalar, mp.nstr(got53, 15), mp.nstr(r53, 15)))
+        return dict(reproduced=False, path=None, detail='real library returns the converged state for the current parameters')
     return replay
 
 
